@@ -14,8 +14,9 @@ def knownPlainReads : List (String × String) :=
   [("core/stat/base.BucketWrap.BucketStart", "core/stat/base.LeapArray.currentBucketOfTime"),
    ("core/stat/base.BucketWrap.BucketStart", "core/stat/base.SlidingWindowMetric.metricItemFromBuckets")]
 
-/-- known finding `outlier-multi-snapshot`: the outlier slots enter the rule lock several times per phase -/
+/-- known finding `outlier-multi-snapshot`: the outlier slots enter the rule lock several times per phase, and
+    `outlier.LoadRules` (hence `ClearRules`) publishes the rules and the node breakers in two separate write sections -/
 def knownSlots : List String :=
-  ["core/outlier.Slot.Check", "core/outlier.MetricStatSlot.OnCompleted"]
+  ["core/outlier.Slot.Check", "core/outlier.MetricStatSlot.OnCompleted", "core/outlier.LoadRules", "core/outlier.ClearRules"]
 
 end Sentinel.C15
